@@ -129,7 +129,9 @@ func (opts GeneratorOptions) setFieldValue(t *rapid.T, msg protoreflect.Message,
 		for i := 0; i < n; i++ {
 			if kind == protoreflect.MessageKind || kind == protoreflect.GroupKind {
 				if !opts.setFields(t, field, list.AppendMutable().Message(), depth+1) {
-					list.Truncate(i)
+					// remove the element just appended (the list may be shorter than i+1
+					// when earlier elements were removed, or longer when it was not empty)
+					list.Truncate(list.Len() - 1)
 				}
 			} else {
 				list.Append(opts.genScalarFieldValue(t, field, fmt.Sprintf("%s%d", name, i)))
